@@ -18,7 +18,7 @@ func init() {
 		Rule: "P-224/P-256/P-384/P-521 x seeded signing keys x blind keys {seeded, 1, 2, N-1, N+1, 2N+5, 2^(8len)-1, leading-zero padded} x contexts {nil, empty, 1 byte, \"ClientBlind\"-style, 300 bytes} x digests of length 0..128. " +
 			"Oracle: BlindPublicKeyWithContext == k*pk with k = hash_to_field(XMD, curve hash, DST \"ECDSA Key Blind\") of minimal-big-endian(D)||0x00||ctx recomputed by the reference (own XMD, std curve); Unblind(Blind(pk)) == pk == Blind(Unblind(pk)); two blindings commute; a BlindKeySignWithContext signature verifies under k*pk with this package's Verify and with crypto/ecdsa.Verify and under pk with neither; another blind or another context gives another key; leading-zero encodings of a blind key behave like the stripped form. Histories: 14 consecutive calls over related (blind key, context) pairs (boundary between them shifted by one byte either way, repeated pair, one bit changed, nil/empty context) with the context in one buffer refilled in place and one public-key object updated in place, each result compared with the stateless reference. " +
 			"distinct_nontrivial = distinct (curve, blind class, context length, digest length)",
-		Floors:      []string{"blind_equals_reference", "unblind_inverts", "commutes", "signature_verifies_both", "signature_fails_under_unblinded", "blind_separation", "context_separation", "P-224", "P-256", "P-384", "P-521", "edge_blind_keys", "history_calls_agree_with_reference"},
+		Floors:      []string{"blind_equals_reference", "unblind_inverts", "commutes", "signature_verifies_both", "signature_fails_under_unblinded", "blind_separation", "context_separation", "P-224", "P-256", "P-384", "P-521", "edge_blind_keys", "history_calls_agree_with_reference", "blind_key_object_of_another_curve"},
 		Assumptions: []string{"a blind key is the integer D (minimal big-endian bytes); the per-curve (hash, L) table is the one of the key-blinding derivation: (SHA-256,32), (SHA-256,48), (SHA-384,72), (SHA-512,98)"},
 		Run:         runC12,
 	})
@@ -210,6 +210,17 @@ func runC12(c *core.Ctx) {
 				must(err)
 				skB, err := ecdsa.CreateKey(curve, bkBytes)
 				must(err)
+				if i%6 == 5 {
+					// the same integer in a key object that was made for ANOTHER curve (a caller keeping one blind key for several
+					// curves): the blind key is the integer D, the curve is the operation's
+					oc := c12Curves()[(i/6+1)%4]
+					if oc.Params().Name == name {
+						oc = c12Curves()[(i/6+2)%4]
+					}
+					skB, err = ecdsa.CreateKey(oc, bkBytes)
+					must(err)
+					c.Class("blind_key_object_of_another_curve")
+				}
 				skB2, err := ecdsa.CreateKey(curve, bk2Bytes)
 				must(err)
 				pk := &skS.PublicKey
